@@ -213,3 +213,52 @@ for _nm, _file, _par in (("eps", _L0, "lsearch0::epsilon"), ("const_t0", _L0C, "
         K("src_l0dom_%s_lo" % _nm, _file, r"make_scalar\(\"%s\",\s*([^,]*?),\s*LT,\s*[^,]*?,\s*LT,\s*[^,)]*?\)" % _par, _L0A, [], "c07", ["C07"]),
         K("src_l0dom_%s_hi" % _nm, _file, r"make_scalar\(\"%s\",\s*[^,]*?,\s*LT,\s*[^,]*?,\s*LT,\s*([^,)]*?)\)" % _par, _L0A, [], "c07", ["C07"]),
     ]
+
+# ---- QUAD extension (exact-arithmetic model C07_Quad_Defs.v): the denominators of the three interpolation formulas of lstep.cpp
+# (std::isfinite of the double code = "no division by zero" in exact arithmetic), the loop guard of fletcher's zoom and the
+# "R not set yet" test of lemarechal.cpp. All kernels of the group are also read over Q (Src_c07_q.v, tools/checks/c07.py: gen_q_twin).
+KERNELS += [
+    K("src_cubic_den", _LS, r"lsearch_step_t::cubic\(.*?return\s+[^;]*?/\s*\(([^;()]*)\);", _UV, _UVA + [("d2", "Z")], "c07", ["C07"]),
+    K("src_quadratic_den", _LS, r"lsearch_step_t::quadratic\(.*?return\s+[^;]*?dt\s*/\s*\(([^;()]*)\);", _UV,
+      _UVA + [("dt", "Z"), ("df", "Z")], "c07", ["C07"]),
+    K("src_secant_den", _LS, r"lsearch_step_t::secant\(.*?return\s+\([^;()]*\)\s*/\s*\(([^;()]*)\);", _UV, _UVA, "c07", ["C07"]),
+    K("src_lem_r_unset", "src/lsearchk/lemarechal.cpp", r"L = \{state, descent, step_size\};\s*if \((.*?)\)\s*\{",
+      [(r"R\.t", "rt"), (r"epsilon0<scalar_t>\(\)", "eps0")], [("rt", "Z"), ("eps0", "Z")], "c07", ["C07"]),
+    K("src_lem_extrapolate", "src/lsearchk/lemarechal.cpp", r"if \(R\.t < epsilon0<scalar_t>\(\)\)\s*\{\s*step_size\s*=\s*(.*?);",
+      [(r"L\.t", "lt"), (r"\b(\d+)\.0\b", r"\1")], [("tau1", "Z"), ("lt", "Z")], "c07", ["C07"]),
+    K("src_bt_interp_min", "src/lsearchk/backtrack.cpp", r"const auto interp_min\s*=\s*(.*?);", [],
+      [("tmin", "Z"), ("safeguard", "Z"), ("tmax", "Z")], "c07", ["C07"]),
+    K("src_bt_interp_max", "src/lsearchk/backtrack.cpp", r"const auto interp_max\s*=\s*(.*?);", [],
+      [("tmin", "Z"), ("safeguard", "Z"), ("tmax", "Z")], "c07", ["C07"]),
+    # lemarechal.cpp has the safeguarded range twice (Armijo-without-Wolfe branch = pick 0, Armijo-fails branch = pick 1)
+    K("src_lem_interp_min_a", "src/lsearchk/lemarechal.cpp", r"const auto interp_min\s*=\s*(.*?);",
+      [(r"L\.t", "lt"), (r"R\.t", "rt")], [("lt", "Z"), ("safeguard", "Z"), ("rt", "Z")], "c07", ["C07"], pick=0),
+    K("src_lem_interp_max_a", "src/lsearchk/lemarechal.cpp", r"const auto interp_max\s*=\s*(.*?);",
+      [(r"L\.t", "lt"), (r"R\.t", "rt")], [("lt", "Z"), ("safeguard", "Z"), ("rt", "Z")], "c07", ["C07"], pick=0),
+    K("src_lem_interp_min_b", "src/lsearchk/lemarechal.cpp", r"const auto interp_min\s*=\s*(.*?);",
+      [(r"L\.t", "lt"), (r"R\.t", "rt")], [("lt", "Z"), ("safeguard", "Z"), ("rt", "Z")], "c07", ["C07"], pick=1),
+    K("src_lem_interp_max_b", "src/lsearchk/lemarechal.cpp", r"const auto interp_max\s*=\s*(.*?);",
+      [(r"L\.t", "lt"), (r"R\.t", "rt")], [("lt", "Z"), ("safeguard", "Z"), ("rt", "Z")], "c07", ["C07"], pick=1),
+    # fletcher.cpp: the extrapolation range of do_get, the safeguarded range and the loop guard of zoom, the two bracket decisions
+    K("src_fl_tmin", "src/lsearchk/fletcher.cpp", r"const auto tmin\s*=\s*(curr\.t[^;]*);",
+      [(r"curr\.t", "ct"), (r"prev\.t", "pt"), (r"\b(\d+)\.0\b", r"\1")], [("ct", "Z"), ("pt", "Z")], "c07", ["C07"]),
+    K("src_fl_tmax", "src/lsearchk/fletcher.cpp", r"const auto tmax\s*=\s*(curr\.t[^;]*);",
+      [(r"curr\.t", "ct"), (r"prev\.t", "pt")], [("ct", "Z"), ("tau1", "Z"), ("pt", "Z")], "c07", ["C07"]),
+    K("src_zoom_guard", "src/lsearchk/fletcher.cpp", r"i < max_iterations && (.*?); \+\+i\)",
+      [(r"std::fabs\(lo\.t - hi\.t\)", "adiff"), (r"epsilon0<scalar_t>\(\)", "eps0")], [("adiff", "Z"), ("eps0", "Z")], "c07", ["C07"]),
+    K("src_zoom_tmin", "src/lsearchk/fletcher.cpp", r"\+\+i\)\s*\{\s*const auto tmin\s*=\s*(.*?);",
+      [(r"std::fabs\(hi\.t - lo\.t\)", "adiff"), (r"lo\.t", "lot"), (r"hi\.t", "hit")],
+      [("lot", "Z"), ("hit", "Z"), ("tau2", "Z"), ("c2", "Z"), ("adiff", "Z")], "c07", ["C07"]),
+    K("src_zoom_tmax", "src/lsearchk/fletcher.cpp", r"\+\+i\)\s*\{\s*const auto tmin[^;]*;\s*const auto tmax\s*=\s*(.*?);",
+      [(r"std::fabs\(hi\.t - lo\.t\)", "adiff"), (r"lo\.t", "lot"), (r"hi\.t", "hit")],
+      [("lot", "Z"), ("hit", "Z"), ("tau3", "Z"), ("adiff", "Z")], "c07", ["C07"]),
+    K("src_zoom_to_hi", "src/lsearchk/fletcher.cpp", r"return \{false, step_size\};\s*\}\s*else if \((.*?)\)\s*\{\s*hi = ",
+      [(r"state\.has_armijo\(state0, descent, step_size, c1\)", "armijo"), (r"state\.fx\(\)", "fx"), (r"lo\.f", "lof")],
+      [("armijo", "bool"), ("fx", "Z"), ("lof", "Z")], "c07", ["C07"]),
+    K("src_zoom_flip", "src/lsearchk/fletcher.cpp", r"else\s*\{\s*if \((.*?)\)\s*\{\s*hi = lo;",
+      [(r"state\.dg\(descent\)", "dg"), (r"lo\.t", "lot"), (r"hi\.t", "hit"), (r"\b(\d+)\.0\b", r"\1")],
+      [("dg", "Z"), ("hit", "Z"), ("lot", "Z")], "c07", ["C07"]),
+    K("src_fl_to_zoom", "src/lsearchk/fletcher.cpp", r"assert\(prev\.t < curr\.t\);\s*if \((.*?)\)\s*\{\s*return zoom",
+      [(r"state\.has_armijo\(state0, descent, step_size, c1\)", "armijo"), (r"curr\.f", "cf"), (r"prev\.f", "pf")],
+      [("armijo", "bool"), ("cf", "Z"), ("pf", "Z")], "c07", ["C07"]),
+]
